@@ -25,7 +25,14 @@ def step (_ : Unit) (ws : List String) : Unit × String :=
       | none => ((), "noenc")
       | some bs =>
         let o := decodeWith Gen.wireGuards Gen.frameCap leanBDec bs
-        ((), s!"{payloadStr bs} rt={resStr o.res} c={o.consumed}")
+        let isExt := (bs.drop 4).head? == some 20
+        let rt := match o.res with
+          | .err .eof => if isExt then "!ext" else "!eof"
+          | r => resStr r
+        let cs := match o.res with
+          | .err _ => if isExt then "?" else toString o.consumed
+          | _ => toString o.consumed
+        ((), s!"{payloadStr bs} rt={rt} c={cs}")
   | "wstream" :: rest =>
     -- messages separated by ";;": concatenation of the independent encodings
     let groups := (rest.foldl (fun (acc : List (List String)) w =>
